@@ -586,7 +586,7 @@ func generate(r *ev.Run, secrets []string) []config {
 	devs := []dev{{fURL, "http-domain", 0}, {fURL, "https-ip", 0}, {fURL, "https-localhost", 0}, {fURL, "https-reserved", 0}, {fURL, "http-localhost", 0}, {fURL, "empty", 0},
 		{fTLS, "none", 1}, {fTLS, "partial", 1}, {fTLS, "none", -1}, {fTLS, "legacy", 0}, {fCrypto, "unset", 0}, {fSQL, "unset", 0}, {fIrma, "irma-demo", 0}, {fSecret, "cli", 0}}
 	rnd = r.Rand("g2")
-	backgrounds := r.Pick(2, 8)
+	backgrounds := r.Pick(2, 12)
 	for _, d := range devs {
 		for b := 0; b < backgrounds; b++ {
 			row := make([]int, len(secure))
@@ -640,6 +640,8 @@ type result struct {
 	l   launch
 	o   observation
 	try int
+	// why earlier tries were repeated
+	retried []string
 }
 
 func fakeVault() *httptest.Server {
@@ -656,6 +658,7 @@ func fakeVault() *httptest.Server {
 
 func runOne(c config, w world) result {
 	res := result{c: c}
+	why := ""
 	for try := 1; try <= 3; try++ {
 		dir, err := os.MkdirTemp("", "c20-")
 		if err != nil {
@@ -669,7 +672,16 @@ func runOne(c config, w world) result {
 		o := runChild(dir, l)
 		os.RemoveAll(dir)
 		res.l, res.o, res.try = l, o, try
-		decided := o.Running || o.Refused && classify(o.RefusalMsg) != "port"
+		if try > 1 {
+			res.retried = append(res.retried, why)
+		}
+		why = "no-verdict(timedout=" + fmt.Sprint(o.TimedOut) + ")"
+		if o.Refused {
+			why = classify(o.RefusalMsg) + ": " + short(o.RefusalMsg)
+		}
+		// a refusal that is not about the configuration (port taken by another process, internal event stream not up in time on a loaded machine) is tried again
+		class := classify(o.RefusalMsg)
+		decided := o.Running || o.Refused && class != "port" && class != "other"
 		if decided || o.Exited && o.ExitedMsg != "" {
 			break
 		}
@@ -761,8 +773,10 @@ func evaluate(r *ev.Run, res result) {
 	r.Case(c.fingerprint(), true)
 	r.Count("configurations_run", 1)
 	r.Count("group_"+c.Group, 1)
-	if res.try > 1 {
-		r.Count("retries_for_ports", res.try-1)
+	for _, why := range res.retried {
+		r.Count("retried_runs", 1)
+		r.Distinct("retry_reasons", why)
+		fmt.Printf("NOTE property=C20 run repeated: %s\n", why)
 	}
 	if refused {
 		r.Count("refused_"+mode, 1)
@@ -798,6 +812,11 @@ func evaluate(r *ev.Run, res result) {
 	} else if exp.mayRefuse {
 		for _, u := range exp.unspecified {
 			r.Unspecified(u + " -> started")
+		}
+	}
+	for _, a := range res.l.Args {
+		if strings.HasPrefix(a, "--storage.sql.connection") {
+			r.Unspecified("storage.sql.connection (redacted as a secret in the logged configuration) accepted on the command line: not a 'token'/'password' option")
 		}
 	}
 	if o.ConfigStrict != c.strict() {
@@ -926,7 +945,7 @@ func evaluateOutbound(r *ev.Run, where string, strict bool, p ledgerLine, w map[
 					r.Count("strict_iam_ip_or_reserved_refused", 1)
 				}
 			} else if attempted {
-				r.Unspecified("strict: https request to IP/reserved host through " + p.Via + " attempted")
+				r.Unspecified("strict: https request to IP/reserved host through " + strings.SplitN(p.Via, "/", 2)[0] + " attempted (only the scheme is documented to be checked there)")
 			}
 			return
 		}
